@@ -1756,6 +1756,12 @@ class Evaluator:
                 return c.const(len(h0[1]))          # len("ft_") is 3
             if h0 and h0[0] in ("tuple", "list") and not any((c.head_of(x) or ("",))[0] == "star" for x in c.args_of(pos[0])):
                 return c.const(len(c.args_of(pos[0])))
+            if h0 and h0[0] == "set" and not c.args_of(pos[0]):
+                return c.const(0)
+        if fname in ("set", "list", "tuple", "sorted") and len(pos) == 1 and not star and not kws and self.exact:
+            h0 = c.head_of(pos[0])
+            if h0 and h0[0] in ("tuple", "list", "set") and not c.args_of(pos[0]):
+                return c.mk((("set" if fname == "set" else "tuple" if fname == "tuple" else "list"),), [])   # set([]) is empty
         if fname == "len" and len(pos) == 1 and not star and not kws and self.exact and \
                 (c.head_of(pos[0]) or ("",))[0] == "seqcomp":
             pos = [self._loop_base(pos[0])]
